@@ -2496,3 +2496,80 @@ Qed.
 
 Lemma keep_idle_spec n ignore c q : in_range n c -> q < n -> nth q (auto_labels n ignore true c) None <> None.
 Proof. intros R. exact (auto_keep_idle n ignore c R q). Qed.
+
+(* ================= totality: a valid labelling is never refused ================= *)
+Lemma in_split_inv3 x : forall c u, In x (split_spec u c) ->
+  needs_split x = false /\
+  (In x c \/ exists v q i, x = piece v q /\ In i c /\ needs_split i = true /\ In q (iqs i)).
+Proof.
+  induction c as [|i r IH]; intros u H; simpl in H; [destruct H|].
+  destruct (needs_split i) eqn:NS.
+  - apply in_app_or in H as [H|H].
+    + apply in_map_iff in H as [q [<- Hq]]. split; [reflexivity|]. right. exists u, q, i. repeat split; auto. now left.
+    + destruct (IH _ H) as [A [B|[v [q [j [E [Hj [Nj Hq]]]]]]]]; (split; [exact A|]); [left; now right|].
+      right. exists v, q, j. repeat split; auto. now right.
+  - destruct H as [<-|H]; [split; [exact NS|left; now left]|].
+    destruct (IH _ H) as [A [B|[v [q [j [E [Hj [Nj Hq]]]]]]]]; (split; [exact A|]); [left; now right|].
+    right. exists v, q, j. repeat split; auto. now right.
+Qed.
+
+Lemma valid_split_labels ls c u : valid_labelling ls c ->
+  forall inst, In inst (split_spec u c) -> exists l, inst_label ls inst = Some l.
+Proof.
+  intros V inst Hin. destruct (in_split_inv3 inst c u Hin) as [NS [Hc|[v [q [i [-> [Hi [NSi Hq]]]]]]]].
+  - destruct (V inst Hc) as [V1 _]. destruct (V1 NS) as [l OL]. exists l. now apply inst_label_iff.
+  - destruct (V i Hi) as [_ V2]. destruct (V2 NSi q Hq) as [l El]. exists l. now rewrite inst_label_piece.
+Qed.
+
+Lemma remap_all_total qs cl : forall c,
+  (forall i, In i c -> incl (iqs i) qs /\ incl (ics i) cl) -> exists c', remap_all qs cl c = Some c'.
+Proof.
+  induction c as [|i r IH]; intros H; simpl; [eauto|].
+  destruct (H i (or_introl eq_refl)) as [Hq Hc].
+  destruct (find_all_total _ _ Hq) as [a Ea]. destruct (find_all_total _ _ Hc) as [b Eb].
+  unfold remap_instr. rewrite Ea, Eb.
+  destruct IH as [r' Er]; [intros x Hx; apply H; now right|]. rewrite Er. simpl. eauto.
+Qed.
+
+Lemma build_subcircuits_total sc qbs cl : forall ids,
+  (forall id, In id ids -> exists body,
+      remap_all (lookup (fst id) qbs) cl (map (fun j => nth j sc dummy_instr) (snd id)) = Some body) ->
+  exists subs, build_subcircuits sc qbs cl ids = Some subs.
+Proof.
+  induction ids as [|[l idxs] r IH]; intros H; simpl; [eauto|].
+  destruct (H (l, idxs) (or_introl eq_refl)) as [body Eb]. simpl in Eb. rewrite Eb.
+  destruct IH as [t Et]; [intros id Hid; apply H; now right|]. rewrite Et. simpl. eauto.
+Qed.
+
+Definition clbits_ok (cregs : list (list nat)) (c : circ) : Prop :=
+  forall i k, In i c -> In k (ics i) -> In k (clbits_of cregs).
+
+(* every request with a valid labelling is answered *)
+Theorem separate_total n cregs c ls :
+  no_empty_instr c -> length ls = n -> valid_labelling ls c -> clbits_ok cregs c ->
+  exists subs, separate_circuit n cregs c (Some ls) = Ok (subs, qmap_of ls).
+Proof.
+  intros NE Ln V CL. unfold separate_circuit. rewrite (no_empty_barrier c NE).
+  rewrite split_barriers_spec by (now apply no_empty_barrier). unfold separate_with.
+  rewrite Ln, Nat.eqb_refl. simpl. rewrite qubit_map_spec. fold (qmap_of ls).
+  pose proof (valid_split_labels ls c 0 V) as VAL.
+  unfold separate_instructions.
+  destruct (sep_loop_total ls (split_spec 0 c) 0
+              (map (fun l => (l, [])) (unique_by_eq (qm_labels (qmap_of ls)))) VAL) as [ids ES].
+  rewrite ES.
+  assert (ES' : separate_instructions (split_spec 0 c) (qmap_of ls) = Ok ids) by exact ES.
+  apply separate_instructions_ok in ES' as [_ Eids].
+  pose proof (ogroups_spec ls) as OI. rewrite Ln in OI.
+  destruct (build_subcircuits_total (split_spec 0 c) (ogroups ls 0 []) (clbits_of cregs) ids) as [subs EB].
+  - intros [l idxs] Hid. rewrite Eids in Hid. apply in_map_iff in Hid as [l' [E Hl']]. inversion E; subst l' idxs.
+    simpl. rewrite (OInv_lookup _ _ _ l OI). rewrite (sel_filter0 ls l dummy_instr (split_spec 0 c)).
+    apply remap_all_total. intros inst Hinst. apply filter_In in Hinst as [Hinst HL].
+    apply okey_beq_eq in HL. apply inst_label_iff in HL as [_ A]. split.
+    + intros q Hq. apply omembers_in. split; [|now apply A].
+      specialize (A q Hq). destruct (Nat.lt_ge_cases q n) as [L|L]; [exact L|].
+      rewrite nth_overflow in A by lia. discriminate.
+    + intros k Hk. destruct (in_split_inv3 inst c 0 Hinst) as [_ [Hc|[v [q [i [-> _]]]]]].
+      * exact (CL inst k Hc Hk).
+      * destruct Hk.
+  - rewrite EB. eauto.
+Qed.
